@@ -154,4 +154,20 @@ Proof.
   intro Hr. exact (proj1 (Proofs.Resume.agree B hx hash_B_pos (tc_proto c) (sc_hstops sc) (te_data e) old o Hr)).
 Qed.
 
+(* the exchange completes when the hash sender stops (if at all) only after the verdict *)
+Lemma resume_run_done c e sc old : tr_stops_ok hx sc (te_data e) old ->
+  exists o, tr_resume_run hx c e sc old = Done o.
+Proof.
+  unfold tr_stops_ok, tr_resume_run. intro Hst. destruct (te_data e) as [|b0 src'] eqn:Es.
+  - destruct old as [|o0 old'].
+    + rewrite (Proofs.Resume.run_no_exchange B hx [] [] (tc_proto c) (sc_hstops sc) (or_intror eq_refl)). eauto.
+    + destruct (tc_proto c <? Consts.resume_min_protocol) eqn:Hp.
+      * rewrite (Proofs.Resume.run_no_exchange B hx [] _ (tc_proto c) (sc_hstops sc) (or_introl Hp)). eauto.
+      * rewrite (Proofs.Resume.run_empty_source_done B hx hash_B_pos [] (o0 :: old') (tc_proto c) (sc_hstops sc) Hp eq_refl ltac:(discriminate)). eauto.
+  - rewrite <- Es in *. assert (Hne : te_data e <> []) by (rewrite Es; discriminate).
+    destruct (sc_hstops sc) as [k|].
+    + apply (Proofs.Resume.run_completes_stop B hx hash_B_pos (te_data e) old (tc_proto c) k Hne Hst).
+    + apply (Proofs.Resume.run_completes B hx hash_B_pos (te_data e) old (tc_proto c) Hne).
+Qed.
+
 End Exchange.
